@@ -317,7 +317,8 @@ def main():
                 'evidence_file': f'/verif/evidence/{pid}.json',
                 'replay_cmd_template': 'python3-vt check.py --replay {path}',
                 'engine': 'pyvc',
-                'level_claimed': {'category': cat, 'text': text, 'design_ref': ref},
+                'level_claimed': {'category': cat, 'text': text,
+                                  'design_ref': f'DESIGN.md section 0.1 (as delivered) and section 6 {pid} (plan)'},
                 'level_note': note,
                 'technique': tech,
             })
